@@ -51,8 +51,9 @@ def why_not_inert(lines):
         if l != l.strip():
             return 'edge-space'
     t = '\n'.join(lines)
-    if t.count('`') >= 2:
-        return 'code-span-candidate'
+    runs = [len(r) for r in re.findall(r'`+', t)]
+    if len(set(runs)) < len(runs):
+        return 'code-span-candidate'      # a code span needs two backtick strings of EQUAL length; all others stay literal
     if re.search(r'\\[!-/:-@\[-`{-~]', t):
         return 'backslash-escape'
     for m in ENTITY.finditer(t):
